@@ -68,6 +68,9 @@ def pair_st(draw, tier):
         top, bottom = bottom, top
     if draw(st.sampled_from(range(6))) == 0:
         top, bottom = draw(G.flag_focus(top, bottom, established=False))
+    if draw(st.sampled_from(range(6))) == 0:
+        # port sets equal or one port apart at an end of a run / of the port space, in every spelling
+        top, bottom = draw(G.port_focus(top, bottom, platform))
     # usual Cisco order 'log <other options>': the log keyword in front of the flag tokens
     for rec in (top, bottom):
         if rec.get("flags") and draw(st.sampled_from([True, False, False])):
@@ -160,6 +163,15 @@ def report_st(draw, tier):
     # native spelling: the report is keyed by rendered text, which is only stable for native input
     # (a foreign spelling such as 0.0.0.0/0 on IOS converges after one re-parse, see C06)
     recs = [G.to_native(r, platform) for r in recs]
+    # sequence numbers: none, ascending, or in any order (the report follows the position in the ACL, whatever
+    # numbers the entries carry), all entries numbered or only some
+    mode = draw(st.sampled_from(["none", "none", "ascending", "any-order", "any-order", "some"]))
+    if mode != "none":
+        nums = draw(st.lists(st.integers(1, 400), min_size=len(recs), max_size=len(recs), unique=True))
+        if mode == "ascending":
+            nums.sort()
+        for r, n in zip(recs, nums):
+            r["seq"] = n if mode != "some" or draw(st.booleans()) else 0
     return {"aces": recs, "platform": platform, "skip": draw(st.sampled_from(A.SKIPS)),
             "warmup": draw(st.lists(st.integers(0, 4), max_size=3))}
 
